@@ -294,7 +294,7 @@ PROPS["C13"] = {
             "equal those of a second binary built with -tags coraza.no_memoize for the same seeds; non-trivial = two WAFs alive together and "
             "an equal string in two roles or different content under one name, with at least one probe",
     "essential": {"all": ["two-wafs-alive", "same-dataset-name-different-content", "same-file-name-different-root", "role:pm", "role:key-rx", "role:ctl-rx",
-                          "role:restpath", "role:nid", "role:rx", "role:binary-rx", "role:status", "role:dataset", "role:file", "role:key-rx-case-insensitive", "role:schema"]},
+                          "role:restpath", "role:nid", "role:rx", "role:binary-rx", "role:status", "role:dataset", "role:file", "role:key-rx-case-insensitive", "role:schema", "texts-equal-after-case-folding"]},
     "assumptions": COMMON_ASSUME + [
         "rapid generates the same case sequence in both binaries for a given seed (verified per line by the case hash)",
     ],
@@ -317,7 +317,7 @@ PROPS["C03"] = {
     "essential": {"all": ["carrier:query", "carrier:urlencoded", "carrier:headers", "carrier:cookies", "carrier:multipart", "carrier:json", "carrier:xml",
                           "dup-or-case-variant-name", "empty-name-or-value", "delimiter-byte-in-data", "body-limit-below-size:Reject",
                           "body-limit-below-size:ProcessPartial", "unparseable:json", "multipart-files", "error-flagged", "content-type-with-parameter", "uploads-sharing-a-file-name", "body-split-at-limit",
-                          "json-depth-limit-flagged", "json-within-depth-limit"]},
+                          "json-depth-limit-flagged", "json-within-depth-limit", "xml-stray-closing-tag"]},
     "assumptions": COMMON_ASSUME + [
         "only data encodable in the carrier is generated (cookie names/values without ';' and surrounding blanks, multipart names without CR/LF/quote, control and non-ASCII bytes always percent-encoded in the request line)",
         "three known findings are excluded by construction while their witnesses still fail (arguments over the limit, colliding JSON keys, multipart without closing boundary)",
